@@ -7,6 +7,8 @@ import (
 
 	"pgregory.net/rapid"
 
+	"github.com/bluenviron/gomavlib/v3/pkg/dialect"
+
 	"verifharness/evid"
 	"verifharness/ref"
 )
@@ -42,22 +44,37 @@ func signedAt(ts uint64, seq byte) []byte {
 	return f.Bytes()
 }
 
+// signedKnownAt is a correctly signed, canonical HEARTBEAT of the common dialect (a message the reader's dialect knows).
+func signedKnownAt(di *dialectInfo, ts uint64, seq byte) []byte {
+	f := ref.Frame{V2: true, Incompat: 1, Seq: seq, Sys: 9, Comp: 8, ID: 0, Payload: []byte{1, 2, 3, 4, 5, 6, 7, 8, 9}, LinkID: linkOf(seq), Timestamp: ts}
+	f.Checksum = f.ChecksumFor(di.layouts[0].CRCExtra)
+	f.Sig = f.SignatureFor(c07Key)
+	return f.Bytes()
+}
+
 // runHistory feeds the history through one reader and compares each decision with the model.
 func runHistory(hist []uint64, frames map[uint64][]byte) (string, error) {
+	return runHistoryDialect(hist, nil, nil)
+}
+
+// runHistoryDialect: with di != nil the reader has a dialect; known[i] says whether the i-th frame carries a message
+// of that dialect or one the dialect does not contain (delivered raw). The window belongs to the link either way.
+func runHistoryDialect(hist []uint64, di *dialectInfo, known []bool) (string, error) {
 	var stream []byte
 	var lens []int
 	for i, ts := range hist {
-		var b []byte
-		if frames != nil {
-			b = signedAt(ts, byte(i)) // link id depends on the position
-			_ = frames
-		} else {
-			b = signedAt(ts, byte(i))
+		b := signedAt(ts, byte(i)) // link id depends on the position
+		if di != nil && known[i] {
+			b = signedKnownAt(di, ts, byte(i))
 		}
 		stream = append(stream, b...)
 		lens = append(lens, len(b))
 	}
-	res, terr, herr := readAll(&chunkReader{data: stream, failAt: -1}, nil, keyOf(&c07Key), len(stream)+2)
+	var drw *dialect.ReadWriter
+	if di != nil {
+		drw = di.rw
+	}
+	res, terr, herr := readAll(&chunkReader{data: stream, failAt: -1}, drw, keyOf(&c07Key), len(stream)+2)
 	if herr != nil {
 		return "", herr
 	}
@@ -81,8 +98,8 @@ func runHistory(hist []uint64, frames map[uint64][]byte) (string, error) {
 		got := r.err == nil
 		if got != want {
 			verdict := map[bool]string{true: "accepted", false: "refused"}
-			return "", fmt.Errorf("step %d of history %v: timestamp %d was %s (err=%v) but must be %s (newest accepted so far: %d, present=%v)",
-				i, hist, ts, verdict[got], r.err, verdict[want], newest, hadNewest)
+			return "", fmt.Errorf("step %d of history %v (reader has a dialect: %v, frames carrying a message of it: %v): timestamp %d was %s (err=%v) but must be %s (newest accepted so far: %d, present=%v)",
+				i, hist, di != nil, known, ts, verdict[got], r.err, verdict[want], newest, hadNewest)
 		}
 		if hadNewest {
 			switch {
@@ -157,8 +174,10 @@ func TestC07WindowEnumerated(t *testing.T) {
 
 func TestC07WindowRandom(t *testing.T) {
 	rec := evid.New(t, "C07", "rapid histories (<=40 frames) mixing boundary values, random 48-bit timestamps and newest+-delta around 1,000,000; model comparison at every step; non-trivial = some frame older than newest but inside the window, on the boundary, or newest < 1,000,000; distinct by hash of the history")
-	rec.Require("inside-window", "on-boundary", "just-outside", "newest-below-window", "forged-interleaved")
+	rec.Require("inside-window", "on-boundary", "just-outside", "newest-below-window", "forged-interleaved", "dialect-reader-known+unknown-messages")
+	common, _ := dialects(t)
 	evid.Check(t, rec, evid.N(40000, 200000), func(t *rapid.T) {
+		readBufSize = 512
 		n := rapid.IntRange(1, 40).Draw(t, "n")
 		var hist []uint64
 		var m windowModel
@@ -206,6 +225,23 @@ func TestC07WindowRandom(t *testing.T) {
 			t.Fatalf("%v", err)
 		}
 		var cs []string
+		// the same history on a reader that has a dialect, the frames carrying known and unknown messages
+		if rapid.Bool().Draw(t, "with_dialect") {
+			known := rapid.SliceOfN(rapid.Bool(), len(hist), len(hist)).Draw(t, "known_message")
+			if _, err := runHistoryDialect(hist, common, known); err != nil {
+				evid.ReplayNote("C07", "TestC07WindowRandom", err.Error())
+				t.Fatalf("%v", err)
+			}
+			nk := 0
+			for _, k := range known {
+				if k {
+					nk++
+				}
+			}
+			if nk > 0 && nk < len(known) {
+				cs = append(cs, "dialect-reader-known+unknown-messages")
+			}
+		}
 		has := func(c rune) bool {
 			for _, x := range cls {
 				if x == c {
@@ -244,6 +280,7 @@ func TestC07WriterTimestamps(t *testing.T) {
 	rec := evid.New(t, "C07", "sequences of keyed writes on streamwriter.Writer and frame.Writer: each timestamp lies in the wall-clock bracket of its call in 10us ticks since 2015-01-01 UTC and never decreases along the link; distinct by (writer kind, sequence length, first timestamp)")
 	common, _ := dialects(t)
 	evid.Check(t, rec, evid.N(600, 4000), func(t *rapid.T) {
+		readBufSize = 512
 		useStream := rapid.Bool().Draw(t, "streamwriter")
 		w := &recWriter{}
 		write, err := keyedWriter(w, common, useStream, c07Key, 5)
